@@ -214,14 +214,12 @@ func (f *Frame) bytesEqual(a, b Term) Term {
 		}
 		return e.defineBool(f.name("beq"), and(eqs...))
 	}
-	r := e.havoc(f.name("beq"), SBool)
-	q := e.qvar()
-	all := Term{S: fmt.Sprintf("(forall ((%s (_ BitVec 64))) (=> (and (bvsle #x0000000000000000 %s) (bvslt %s %s)) (= (select %s (bvadd %s %s)) (select %s (bvadd %s %s)))))",
-		q, q, q, la.S, ra.S, sOff(a).S, q, rb.S, sOff(b).S, q), Sort: SBool}
-	e.assume(implies(r, and(eq(la, lb), all)))
-	w := e.havoc(f.name("beqw"), SBV64)
-	e.assume(implies(not(r), or(not(eq(la, lb)), and(sle(i64(0), w), slt(w, la),
-		not(eq(sel(ra, bvAdd(sOff(a), w)), sel(rb, bvAdd(sOff(b), w))))))))
+	// general lengths: an uninterpreted content-equality predicate (no quantifier): reflexive, implies equal
+	// lengths; element-wise consequences are not derived (they are for constant lengths, above)
+	e.predeclare("eqcontent", fmt.Sprintf("(declare-fun eqcontent (%s (_ BitVec 64) %s (_ BitVec 64) (_ BitVec 64)) Bool)", arraySort(SBV64, SBV8), arraySort(SBV64, SBV8)))
+	r := e.defineBool(f.name("beq"), and(eq(la, lb), app(SBool, "eqcontent", ra, sOff(a), rb, sOff(b), la)))
+	e.assume(implies(and(eq(la, lb), eq(sReg(a), sReg(b)), eq(sOff(a), sOff(b))), r))
+	e.assume(implies(and(eq(la, i64(0)), eq(lb, i64(0))), r))
 	return r
 }
 
@@ -367,6 +365,18 @@ func (f *Frame) appendModel(instr ssa.Instruction, c *ssa.CallCommon, args []Val
 	name := f.name("app")
 	newLen := e.define(name+"_len", bvAdd(sLen(s), addLen))
 	inPlace := e.defineBool(name+"_inplace", sle(newLen, sCap(s)))
+	// encode-time check: if the append provably stays within capacity here, use the quantifier-free in-place form
+	if addLen.isC && addLen.c <= smallN && e.provedNow(f.guard, inPlace) {
+		row := sel(h, sReg(s))
+		start := bvAdd(sOff(s), sLen(s))
+		nr := row
+		for k := uint64(0); k < addLen.c; k++ {
+			nr = store(nr, bvAdd(start, i64(int64(k))), addAt(i64(int64(k))))
+		}
+		e.setHeap(f.st, hn, store(h, sReg(s), nr))
+		e.assume(implies(f.guard, sle(newLen, i64(1<<48))))
+		return e.define(name, mkSlice(sReg(s), sOff(s), newLen, sCap(s)))
+	}
 	freshReg := e.alloc(f.st, name+"_reg")
 	freshCap := e.havoc(name+"_cap", SBV64)
 	e.assume(and(sle(newLen, freshCap), sle(freshCap, i64(1<<48))))
@@ -375,36 +385,22 @@ func (f *Frame) appendModel(instr ssa.Instruction, c *ssa.CallCommon, args []Val
 	reg := e.define(name+"_r", ite(inPlace, sReg(s), freshReg))
 	off := e.define(name+"_o", ite(inPlace, sOff(s), i64(0)))
 	cp := e.define(name+"_c", ite(inPlace, sCap(s), freshCap))
-	oldRow := sel(h, sReg(s))
-	// base row of the target region before writing the appended part
-	var base Term
-	if sLen(s).isC && sLen(s).c <= smallN {
-		fr := Term{S: fmt.Sprintf("((as const %s) %s)", arraySort(SBV64, el), e.zero(st.Elem()).S), Sort: arraySort(SBV64, el)}
-		for k := uint64(0); k < sLen(s).c; k++ {
-			fr = store(fr, i64(int64(k)), sel(oldRow, bvAdd(sOff(s), i64(int64(k)))))
-		}
-		base = ite(inPlace, oldRow, fr)
-	} else {
-		fr := e.havoc(name+"_fresh", arraySort(SBV64, el))
-		q := e.qvar()
-		e.assume(Term{S: fmt.Sprintf("(forall ((%s (_ BitVec 64))) (! (=> (and (bvsle #x0000000000000000 %s) (bvslt %s %s)) (= (select %s %s) (select %s (bvadd %s %s)))) :pattern ((select %s %s))))",
-			q, q, q, sLen(s).S, fr.S, q, oldRow.S, sOff(s).S, q, fr.S, q), Sort: SBool})
-		base = ite(inPlace, oldRow, fr)
-	}
-	base = e.define(name+"_base", base)
+	oldRow := e.define(name+"_old", sel(h, sReg(s)))
 	start := e.define(name+"_st", bvAdd(off, sLen(s)))
-	var nr Term
+	zero := e.zero(st.Elem())
+	// one element-wise definition of the target row (no array-level ite, so that E-matching on (select row q) works):
+	//   appended part | in place: untouched old row | fresh: copy of the old elements, zero elsewhere
+	nr := e.havoc(name+"_row", arraySort(SBV64, el))
+	q := e.qvar()
+	qi := sym(q, SBV64)
+	freshVal := ite(and(sle(i64(0), qi), slt(qi, sLen(s))), sel(oldRow, bvAdd(sOff(s), qi)), zero)
+	body := eq(sel(nr, qi), ite(and(sle(start, qi), slt(qi, bvAdd(start, addLen))), addAt(bvSub(qi, start)), ite(inPlace, sel(oldRow, qi), freshVal)))
+	e.assume(Term{S: fmt.Sprintf("(forall ((%s (_ BitVec 64))) (! %s :pattern ((select %s %s))))", q, body.S, nr.S, q), Sort: SBool})
 	if addLen.isC && addLen.c <= smallN {
-		nr = base
+		// explicit facts for the appended elements (useful to the quantifier-free slice)
 		for k := uint64(0); k < addLen.c; k++ {
-			nr = store(nr, bvAdd(start, i64(int64(k))), addAt(i64(int64(k))))
+			e.assume(eq(sel(nr, bvAdd(start, i64(int64(k)))), addAt(i64(int64(k)))))
 		}
-	} else {
-		nr = e.havoc(name+"_row", arraySort(SBV64, el))
-		q := e.qvar()
-		qi := sym(q, SBV64)
-		body := eq(sel(nr, qi), ite(and(sle(start, qi), slt(qi, bvAdd(start, addLen))), addAt(bvSub(qi, start)), sel(base, qi)))
-		e.assume(Term{S: fmt.Sprintf("(forall ((%s (_ BitVec 64))) (! %s :pattern ((select %s %s))))", q, body.S, nr.S, q), Sort: SBool})
 	}
 	e.setHeap(f.st, hn, store(h, reg, nr))
 	return e.define(name, mkSlice(reg, off, newLen, cp))
